@@ -2,10 +2,20 @@ import PydraModel.DriverUtil
 import PydraModel.FileHash.Model
 open Lean PydraModel PydraModel.FileHash PydraModel.DriverUtil
 
+def natsOfJson (j : Json) : Except String (List Nat) := do
+  (← j.getArr?).toList.mapM (·.getNat?)
+
 def keyOfJson (j : Json) : Except String Key := do
   let a ← j.getArr?
-  if a.size != 3 then throw "key: want [cls,path,mtime]" else
-  return ⟨← a[0]!.getNat?, ← a[1]!.getNat?, ← a[2]!.getNat?⟩
+  if a.size != 3 then throw "key: want [cls,[paths],[mtimes]]" else
+  let ps ← natsOfJson a[1]!
+  let ms ← natsOfJson a[2]!
+  if ps.length != ms.length then throw "key: paths and mtimes differ in length" else
+  return ⟨← a[0]!.getNat?, ps, ms⟩
+
+def getNats (j : Json) (k : String) : Except String (List Nat) := do
+  let l ← natsOfJson (← j.getObjVal? k)
+  if l.isEmpty then throw s!"{k}: a file-set has at least one member" else return l
 
 def opOfJson (j : Json) : Except String Op := do
   let op ← getStr j "op"
@@ -14,13 +24,13 @@ def opOfJson (j : Json) : Except String Op := do
   | "utime" => return .utime (← getNat j "p") (← getNat j "t")
   | "rename" => return .rename (← getNat j "p") (← getNat j "q")
   | "copy2" => return .copy2 (← getNat j "p") (← getNat j "q")
-  | "hash" => return .hash (← getNat j "s") (← getNat j "cls") (← getNat j "p")
-  | "hashFresh" => return .hashFresh (← getNat j "cls") (← getNat j "p")
+  | "hash" => return .hash (← getNat j "s") (← getNat j "cls") (← getNats j "ps")
+  | "hashFresh" => return .hashFresh (← getNat j "cls") (← getNats j "ps")
   | "newProcess" => return .newProcess (← getNat j "s")
   | "cleanUp" => return .cleanUp (← (← getArr j "victims").toList.mapM keyOfJson)
   | _ => throw s!"bad-op {op}"
 
-def outToJson : Option Content → Json
+def outToJson : Option (List Content) → Json
   | none => Json.null
   | some v => toJson v
 
